@@ -133,12 +133,16 @@ class Exec:
     def enter_iteration(self, sub, p):
         """mark `sub` as executing one iteration of a loop / comprehension entered on path p"""
         if sub.outer_ids is None:
+            self.trace.setdefault("_keep", []).append(list(p.cond))   # ids stay unique only while the ASTs are alive
             sub.outer_ids = frozenset(c.get_id() for c in p.cond)
         return sub
 
     def event_path(self, p):
         """path identity for ghost events: inside an iteration, the path on which the loop was entered"""
-        return self.outer_ids if self.outer_ids is not None else frozenset(c.get_id() for c in p.cond)
+        if self.outer_ids is not None:
+            return self.outer_ids
+        self.trace.setdefault("_keep", []).append(list(p.cond))
+        return frozenset(c.get_id() for c in p.cond)
 
     def fresh_sym(self, sort, prefix, node=None):
         """A fresh symbol; inside a summarised loop body a function of the loop indices, named after the
@@ -185,6 +189,24 @@ class Exec:
         cs = [c for c in cs if not z3.is_true(c)]
         if not cs:
             return True
+        # syntactic shortcut: the newest condition (or its negation) is already on the path
+        ids = {c.get_id() for c in cs[:-1]}
+        last = cs[-1]
+        if last.get_id() in ids:
+            return True if len(cs) == 1 else self.feasible(cond[:-1])
+        neg = z3.simplify(z3.Not(last))
+        if neg.get_id() in ids:
+            return False
+        # the verdict depends on the background axioms too: key on this executor's bg (identity and current size)
+        key = (id(self.bg), len(self.bg), frozenset(ids | {last.get_id()}))
+        memo = self.trace.setdefault("_feas", {})
+        if key in memo:
+            return memo[key][0]
+        r = self._feasible_solver(cs)
+        memo[key] = (r, cs)     # keeping the ASTs alive keeps their ids unique (z3 recycles ids of freed ASTs)
+        return r
+
+    def _feasible_solver(self, cs):
         s = z3.Solver()
         s.set("timeout", self.feas_timeout_ms)
         for b in self.bg:
@@ -755,6 +777,9 @@ class Exec:
         if isinstance(cont, SetL):
             from .values import member
             return member(cont.lst, item)
+        if isinstance(cont, DctL):
+            from .values import member
+            return member(cont.keys, item)
         if isinstance(cont, Dct):
             return z3.Or([eq(item, k) for k, _ in cont.pairs]) if cont.pairs else z3.BoolVal(False)
         if isinstance(cont, Opq):
